@@ -193,7 +193,8 @@ func printExpr1(e *Expr) string {
 
 // tag wraps the inside of a tag in single or, when it contains a brace, double braces.
 func tag(inner string) string {
-	if strings.ContainsAny(inner, "{}") {
+	// (also, as a spelling variation, for one tag length in seven)
+	if strings.ContainsAny(inner, "{}") || len(inner)%7 == 3 {
 		return "{{" + inner + "}}"
 	}
 	return "{" + inner + "}"
@@ -254,6 +255,17 @@ func (p *printer) callName(c *Call) (string, string) {
 			name = short
 		}
 		return "", " name=" + AttrQuote(name)
+	case 4:
+		// the longest aliased proper prefix of the namespace stands for its last segment
+		best := ""
+		for _, a := range p.file.Aliases {
+			if strings.HasPrefix(ns, a+".") && len(a) > len(best) {
+				best = a
+			}
+		}
+		if best != "" {
+			name = best[strings.LastIndex(best, ".")+1:] + ns[len(best):] + short
+		}
 	}
 	return " " + name, ""
 }
@@ -295,6 +307,7 @@ func (p *printer) cmd(c *Cmd) {
 		b.WriteString("{/if}")
 	case "switch":
 		b.WriteString(tag("switch " + PrintExpr(c.Expr)))
+		b.WriteString(c.Gap)
 		for _, br := range c.Branches {
 			vs := make([]string, len(br.Values))
 			for i, v := range br.Values {
@@ -339,6 +352,7 @@ func (p *printer) cmd(c *Cmd) {
 			return
 		}
 		b.WriteString(tag(inner))
+		b.WriteString(c.Gap)
 		for _, pr := range c.Call.Params {
 			if soyKeywords[pr.Key] {
 				pr.Style = 1 // a key spelled like a command name is written in attribute syntax
@@ -357,6 +371,7 @@ func (p *printer) cmd(c *Cmd) {
 			default:
 				b.WriteString(tag("param key=" + AttrQuote(pr.Key) + " value=" + AttrQuote(PrintExpr(pr.Value)) + " /"))
 			}
+			b.WriteString(c.Gap)
 		}
 		b.WriteString("{/call}")
 	case "css":
@@ -382,6 +397,7 @@ func (p *printer) cmd(c *Cmd) {
 		b.WriteString("{/msg}")
 	case "plural":
 		b.WriteString(tag("plural " + PrintExpr(c.Expr)))
+		b.WriteString(c.Gap)
 		for _, br := range c.Branches {
 			b.WriteString("{case " + strconv.Itoa(br.Int) + "}")
 			p.cmds(br.Body)
